@@ -48,10 +48,10 @@ DstBase(c) == IF c.imp \in {"dst", "both"} THEN Qual(c.pkg) \o ".XS" ELSE "SigD"
 Star(b, t) == IF b THEN "*" \o t ELSE t
 SrcType(c) == Star(c.srcPtr, SrcBase(c))
 DstType(c) == Star(c.dstPtr, DstBase(c))
-\* a composite type with an imported element, an imported defined type, a pointer to a local one
-ArgTypes == <<"[]ext.XInt", "ext.XInt", "*MyInt">>
-ArgDeclNames == <<"count", "code", "ref">>
-ArgDefNames  == <<"arg0", "arg1", "arg2">>
+\* a composite type with an imported element, an imported defined type, a pointer to a local one, a pointer to a pointer
+ArgTypes == <<"[]ext.XInt", "ext.XInt", "*MyInt", "**ext.XS">>
+ArgDeclNames == <<"count", "code", "ref", "link">>
+ArgDefNames  == <<"arg0", "arg1", "arg2", "arg3">>
 
 \* ---- names
 \* the receiver name of the notation: an ordinary Go identifier, underscore included
